@@ -30,10 +30,12 @@ RULE = ("case = program (object tree / list with foreach / dist / solve_order) +
         "run twice (faulted session vs pristine session, both re-seeded after the fault point); non-trivial = the fault "
         "really raised inside the library call and the continuation contains at least 3 successful randomizations")
 ASSUMPTIONS = ["the pristine twin runs first in the same worker process from a reset construction state",
+               "for faults that strike after the solve (exception in a randomize_with block, whose __exit__ still randomizes, or in "
+               "post_randomize) the twin makes the same call without the exception",
                "values of random fields may differ right after the aborted call; the comparison starts with the first "
                "continuation call after both sessions were re-seeded"]
 CASE_TIMEOUT = 180
-FAULT_KINDS = ["cons", "with_raise", "pre", "post", "unsat", "unsat_debug", "unsat_free", "dyn_raise"]
+FAULT_KINDS = ["cons", "with_raise", "pre", "post", "unsat", "unsat_debug", "unsat_free", "dyn_raise", "unsat_ext"]
 
 
 def plan(tier):
@@ -107,9 +109,25 @@ def gen_case(rng, tier, idx):
                 fault["inline"] = contra
         elif fk == "unsat_free":
             fault.update(fields=[list(p)], inline=contra)
+        elif fk == "unsat_ext":
+            # unsatisfiable randomize_with whose inline constraints also name a field of ANOTHER object
+            tops = [(q, qd) for q, qd in rands if len(q) == 1]
+            if not tops:
+                continue
+            q, qd = rng.choice(tops)
+            fault.update(field=q[0], debug=rng.random() < 0.7, inline=contra, width=qd["w"], signed=qd["s"])
         pre_ops = []
         for _k in range(rng.randint(0, 2)):
             pre_ops.append({"op": "randomize", "o": "o0"})
+        if kind == "list" and rng.random() < 0.7:
+            # the user edits the exposed list between the calls (the fault hits an object whose list changed since
+            # the last successful call)
+            L = [fd for fd in prog["classes"]["T"]["fields"] if fd["n"] == "l"][0]
+            for _k in range(rng.randint(1, 2)):
+                pre_ops.append(rng.choice([
+                    {"op": "l_append", "o": "o0", "path": ["l"], "v": g.rand_val(L["w"], L["s"])},
+                    {"op": "l_extend", "o": "o0", "path": ["l"], "v": [g.rand_val(L["w"], L["s"]) for _ in range(2)]},
+                    {"op": "l_assign", "o": "o0", "path": ["l"], "v": [g.rand_val(L["w"], L["s"]) for _ in range(rng.randint(1, 3))]}]))
         cont = []
         for _k in range(rng.randint(4, 7)):
             c = rng.random()
@@ -169,15 +187,36 @@ def fingerprint(model, _seen=None):
 def run_scenario(spec, with_fault):
     """-> dict(trace=[...], fault_raised=bool, m4=[(kind,msg)], note)"""
     from vsc.model.rand_state import RandState
-    vsc_mod = None
     sess = Session(spec["prog"], callbacks=True, seed=spec["seed"])
     o = sess.new("o0")
     m4 = []
     fault = spec["fault"]
+    ox = None
+    if fault["kind"] == "unsat_ext":
+        with quiet():
+            ox = sess.bt.new(spec["prog"]["top"])
+        ox.set_randstate(RandState.mkFromSeed(spec["seed"] + 17))
     for op in spec["pre_ops"]:
         sess.apply(op)
     fp_before = fingerprint(o.get_model())
+    lens_before = _list_lens(sess, "o0")
     raised = None
+    if not with_fault and fault["kind"] in ("with_raise", "dyn_raise", "post"):
+        # the aborted call of the faulted session DID solve (the user exception strikes in the with-block, whose
+        # __exit__ still randomizes, or in post_randomize after the solve): the twin makes the same call without the
+        # exception, so that both sessions differ only in the exception itself
+        try:
+            with quiet():
+                if fault["kind"] == "post":
+                    o.randomize()
+                else:
+                    with o.randomize_with() as it:
+                        B.Emitter(sess.bt, it).stmts(_strip_raise(fault["inline"]))
+        except BaseException as e:   # noqa
+            if type(e).__name__ == "CaseTimeout" or isinstance(e, (KeyboardInterrupt, SystemExit)):
+                raise
+            reset_lib_state()
+        model_handles(o.get_model(), scrub=True)
     if with_fault:
         fk = fault["kind"]
         try:
@@ -204,6 +243,11 @@ def run_scenario(spec, with_fault):
                 with quiet():
                     with o.randomize_with(solve_fail_debug=1 if fault.get("debug") else 0) as it:
                         B.Emitter(sess.bt, it).stmts(fault["inline"])
+            elif fk == "unsat_ext":
+                with quiet():
+                    with o.randomize_with(solve_fail_debug=1 if fault.get("debug") else 0) as it:
+                        getattr(it, fault["field"]) != getattr(ox, fault["field"])
+                        B.Emitter(sess.bt, it).stmts(fault["inline"])
             elif fk == "unsat_free":
                 fos = [sess.raw_field("o0", fp_) for fp_ in fault["fields"]]
                 with quiet():
@@ -220,8 +264,17 @@ def run_scenario(spec, with_fault):
             m4.append(("stacks-not-idle", "after the %s fault (%s) the shared construction state is not idle: %s" % (fk, raised, ni)))
             reset_lib_state()      # keep judging the rest of the property on this case
         left = model_handles(o.get_model(), scrub=True)
+        if ox is not None:
+            left = left + ["other object: " + x for x in model_handles(ox.get_model(), scrub=False)]
         if left:
             m4.append(("leftover-solver-handle", "after the %s fault (%s) the object's model still holds solver handles: %s" % (fk, raised, left[:6])))
+        lens_after = _list_lens(sess, "o0")
+        # a fault that strikes before the solve completed (construction of another object, pre_randomize, an
+        # unsatisfiable system) must leave every list as long as the user had it; after with-block / post_randomize
+        # faults the solve itself succeeded and may legitimately have re-sized a random-size list
+        if lens_after != lens_before and fk in ("cons", "pre", "unsat", "unsat_debug", "unsat_free", "unsat_ext"):
+            m4.append(("failed-call-changed-list-length", "the %s fault (%s) changed the exposed length of lists: before %s, after %s" % (
+                fk, raised, lens_before, lens_after)))
         fp_after = fingerprint(o.get_model())
         if fp_after[1]:
             m4.append(("override-not-rolled-back", "after the %s fault (%s) %d temporary ConstraintOverrideModel nodes remain in the "
@@ -233,6 +286,25 @@ def run_scenario(spec, with_fault):
     # ---- both sessions: re-seed, then the scripted continuation
     o.set_randstate(RandState.mkFromSeed(spec["reseed"]))
     trace = []
+    if ox is not None:
+        # later use of the other object whose field the failed call named
+        from ..session import snapshot_obj
+        ox.set_randstate(RandState.mkFromSeed(spec["reseed"] + 3))
+        for step in range(2):
+            try:
+                with quiet():
+                    if step == 0:
+                        with ox.randomize_with() as it:
+                            getattr(it, fault["field"]) >= (vsc_signed(sess, 0, fault) if fault.get("signed") else 0)
+                    else:
+                        ox.randomize()
+                oc = "ok"
+            except BaseException as e:   # noqa
+                if type(e).__name__ == "CaseTimeout" or isinstance(e, (KeyboardInterrupt, SystemExit)):
+                    raise
+                oc = type(e).__name__
+                reset_lib_state()
+            trace.append(("other-object", oc, None, _vals(snapshot_obj(ox, spec["prog"], spec["prog"]["top"], sess.vsc)) if oc == "ok" else None))
     nnew = 0
     bt2 = None
     for op in spec["cont"]:
@@ -281,6 +353,47 @@ def run_scenario(spec, with_fault):
     return {"trace": trace, "raised": raised, "m4": m4}
 
 
+def vsc_signed(sess, v, fault):
+    return sess.vsc.signed(v, fault.get("width", 8))
+
+
+def _strip_raise(stmts):
+    out = []
+    for s in stmts:
+        if s[0] == "raise":
+            continue
+        if s[0] == "if":
+            out.append(["if", [[c, _strip_raise(b)] for c, b in s[1]], _strip_raise(s[2]) if s[2] is not None else None])
+        elif s[0] == "imp":
+            out.append(["imp", s[1], _strip_raise(s[2])])
+        elif s[0] == "fe":
+            out.append(["fe", s[1], s[2], _strip_raise(s[3])])
+        else:
+            out.append(s)
+    return out
+
+
+def _list_lens(sess, inst):
+    """exposed length (len(), size, number of iterated elements) of every list of the object tree"""
+    out = {}
+
+    def walk(snap, prefix):
+        for n, v in snap["f"].items():
+            if isinstance(v, dict):
+                walk(v, prefix + n + ".")
+            elif isinstance(v, list):
+                alt = snap["alt"].get(n)
+                out[prefix + n] = (len(v), alt[0] if alt else None, alt[1] if alt else None)
+                for i, x in enumerate(v):
+                    if isinstance(x, dict):
+                        walk(x, prefix + "%s[%d]." % (n, i))
+    try:
+        walk(sess.snapshot(inst), "")
+    except Exception as e:
+        out["<unreadable>"] = repr(e)
+    return out
+
+
 def _vals(snap):
     if snap is None:
         return None
@@ -319,7 +432,13 @@ def exec_case(spec):
         viol.append((k, m, {"fault": spec["fault"], "raised": faulted["raised"], "prog_kind": spec["kind"]}))
     cnt.inc("m4_checks")
     ok_cont = sum(1 for t in pristine["trace"] if t[1] == "ok")
-    if pristine["trace"] != faulted["trace"]:
+    has_rsz = any(fd["k"] == "list" and fd.get("rsz") for cd in spec["prog"]["classes"].values() for fd in cd["fields"])
+    if fk == "post" and has_rsz:
+        # an exception in post_randomize aborts the call between the solve and the trimming of a random-size list:
+        # neither "the call never happened" nor "the call completed" describes the object afterwards, and the number
+        # of draws of a later call legitimately depends on how many elements the list holds; only M4 is judged here
+        cnt.inc("twin_not_applicable")
+    elif pristine["trace"] != faulted["trace"]:
         first = next((i for i, (a, b) in enumerate(zip(pristine["trace"], faulted["trace"])) if a != b), None)
         viol.append(("continuation-diverges", "after the %s fault (%s) continuation step %s differs from the pristine twin: pristine %s, "
                      "faulted %s" % (fk, faulted["raised"], first,
